@@ -12,6 +12,12 @@ DEMOS = {
     ("C03", "change2"): ("test", "demo.patch", "--no-fail-fast --test-threads 1 -E 'test(c03_busy_passive_demo_test)'"),
     ("C05", "change1"): ("test", "demo.diff", "c05_demo_partial_drain"),
     ("C05", "change2"): ("test", "demo.diff", "c05_demo_failed_uid"),
+    ("C04", "change1"): ("py", "SNELDB_BIN", "demo_restart_order.py"),
+    ("C04", "change2"): ("py", "SNELDB_BIN", "demo_zone_boundary.py"),
+    ("C06", "change1"): ("cptest", "c06_change1_demo.rs", "c06_change1_demo"),
+    ("C06", "change2"): ("cptest", "c06_change2_demo.rs", "c06_change2_demo"),
+    ("C09", "change1"): ("cpmod", "c09_demo_minmax_test.rs:src/command/handlers/query/merge/:register_demo_test.diff", "-E 'test(c09_demo_min_max)'"),
+    ("C09", "change2"): ("cpmod", "c09_demo_nullable_total_test.rs:src/engine/core/read/flow/operators/:register_demo_test.diff", "-E 'test(c09_demo_nullable_total)'"),
     ("C13", "change1"): ("py", "SNELDB_BIN", "demo_grant_leak.py"),
     ("C13", "change2"): ("py", "SNELDB_BIN", "demo_revoked_user_forged_sig.py"),
 }
@@ -43,6 +49,22 @@ def main():
                 return None, o[-800:]
             rc, o = sh("python3 %s/demo/%s" % (out, b), out + "/demo", dict(env, **{a: tgt + "/debug/snel_db"}), timeout=1200)
             return rc == 0, o[-1500:]
+        elif kind == "cptest":
+            sh("cp %s/demo/%s tests/" % (out, a), wt)
+            rc, o = sh("cargo test --offline --test %s -- --test-threads 1 2>&1 | tail -40" % b, wt, env, timeout=2400)
+            sh("rm -f tests/%s" % a, wt)
+            ok = "test result: ok" in o and "FAILED" not in o
+            return ok, o[-1500:]
+        elif kind == "cpmod":
+            fn, dest, reg = a.split(":")
+            sh("cp %s/demo/%s %s" % (out, fn, dest), wt)
+            rc, o = sh("git apply %s/demo/%s" % (out, reg), wt)
+            if rc != 0:
+                return None, "register diff does not apply: " + o
+            rc, o = sh("cargo nextest run --workspace --offline --no-capture %s 2>&1 | tail -60" % b, wt, env, timeout=2400)
+            ok = "Summary" in o and " passed" in o and " failed" not in o.split("Summary")[-1]
+            sh("git apply -R %s/demo/%s; rm -f %s/%s" % (out, reg, dest, fn), wt)
+            return ok, o[-1500:]
         else:
             rc, o = sh("git apply %s/demo/%s" % (out, a), wt)
             if rc != 0:
